@@ -36,15 +36,64 @@ class Lock:
         self.f.close()
 
 
-def run(cmd, cwd=None, timeout=None, env=None, input=None):
+def _group_rss_kb(pgid):
+    total = 0
+    for d in os.listdir('/proc'):
+        if not d.isdigit():
+            continue
+        try:
+            st = open('/proc/%s/stat' % d).read()
+            f = st[st.rindex(')') + 2:].split()
+            if int(f[2]) != pgid:          # pgrp
+                continue
+            total += int(f[21]) * 4        # rss pages -> KiB
+        except (OSError, ValueError, IndexError):
+            pass
+    return total
+
+
+def run(cmd, cwd=None, timeout=None, env=None, input=None, mem_limit_gb=None):
+    """Run a command in its own process group; on timeout the whole group is killed (a `lake build` that
+    is abandoned must not leave a `lean` child growing in the background).  With mem_limit_gb a watchdog
+    kills the group when its resident memory exceeds the limit (RLIMIT_AS cannot be used: lean reserves
+    address space far beyond what it touches)."""
+    import signal, threading
     e = dict(os.environ)
     if env:
         e.update(env)
+    p = subprocess.Popen(cmd, cwd=cwd, stdin=subprocess.PIPE if input is not None else subprocess.DEVNULL,
+                         stdout=subprocess.PIPE, stderr=subprocess.PIPE, text=True, env=e, errors='replace',
+                         start_new_session=True)
+    over = []
+    stop = threading.Event()
+    if mem_limit_gb:
+        def watch():
+            while not stop.wait(2.0):
+                if _group_rss_kb(p.pid) > mem_limit_gb * 1024 * 1024:
+                    over.append(1)
+                    try:
+                        os.killpg(p.pid, signal.SIGKILL)
+                    except OSError:
+                        pass
+                    return
+        threading.Thread(target=watch, daemon=True).start()
     try:
-        p = subprocess.run(cmd, cwd=cwd, capture_output=True, text=True, timeout=timeout, env=e, input=input, errors='replace')
-        return p.returncode, p.stdout, p.stderr
-    except subprocess.TimeoutExpired as ex:
-        return 124, (ex.stdout or b'').decode(errors='replace') if isinstance(ex.stdout, bytes) else (ex.stdout or ''), 'TIMEOUT'
+        out, err = p.communicate(input=input, timeout=timeout)
+        stop.set()
+        if over:
+            return 125, out, (err or '') + 'MEMORY-LIMIT'
+        return p.returncode, out, err
+    except subprocess.TimeoutExpired:
+        stop.set()
+        try:
+            os.killpg(p.pid, signal.SIGKILL)
+        except OSError:
+            pass
+        try:
+            out, err = p.communicate(timeout=20)
+        except Exception:
+            out, err = '', ''
+        return 124, out or '', (err or '') + 'TIMEOUT'
 
 
 def repo_hash():
@@ -92,10 +141,21 @@ def regenerate(groups=None, force=False):
         return gen.generate(REPO, os.path.join(LEAN, 'MiVerif', 'Gen'), CACHE, groups=groups, force=force)
 
 
-def lake_build(targets, timeout=3000):
+# A proof over regenerated code can diverge instead of failing when the code under it changed (the kernel
+# unfolding `x + 2^64 - 1` in unary is the usual shape); the build is therefore bounded, and an exhausted
+# bound is a proof that no longer checks, handled like any other (search for a failing input, then report).
+LEAN_TIMEOUT = int(os.environ.get('VERIF_LEAN_TIMEOUT', '900'))
+LEAN_MEM_GB = int(os.environ.get('VERIF_LEAN_MEM_GB', '24'))
+
+
+def lake_build(targets, timeout=None):
     with Lock('lake'):
         t0 = time.time()
-        rc, out, err = run(['lake', 'build'] + list(targets), cwd=LEAN, timeout=timeout)
+        rc, out, err = run(['lake', 'build'] + list(targets), cwd=LEAN, timeout=timeout or LEAN_TIMEOUT, mem_limit_gb=LEAN_MEM_GB)
+        if rc == 124:
+            err += '\nerror: lake build %s did not finish within %d s' % (' '.join(targets), timeout or LEAN_TIMEOUT)
+        if rc == 125:
+            err += '\nerror: lake build %s exceeded %d GB of resident memory' % (' '.join(targets), LEAN_MEM_GB)
         return rc == 0, (out + err), time.time() - t0
 
 
